@@ -131,6 +131,10 @@ func (e *cLogEntry) serialize() []byte {
 }
 
 func (e *cLogEntry) isValid() bool {
+	if e.initialNLogSize < 0 || e.initialHLogSize < 0 {
+		return false
+	}
+
 	return e.initialNLogSize <= e.finalNLogSize &&
 		e.rootNodeSize > 0 &&
 		int64(e.rootNodeSize) <= e.finalNLogSize &&
